@@ -80,6 +80,7 @@ def handshake_datagram_times():
         ts = sorted({round(t, 3) for (t, d, _data, _info) in r.s.net.log if d == "c2s" and t < 11.0})
         _PILOT["t"] = ts
         _PILOT["ev"] = sorted({round(e["t"] / 1000.0, 3) for e in r.log if e["k"] == "deliver" and e["t"] < 11000})
+        _PILOT["named"] = [(e["ev"], round(e["t"] / 1000.0, 3)) for e in r.log if e["k"] == "deliver" and e["t"] < 11000]
     return _PILOT["t"]
 
 
@@ -109,10 +110,23 @@ def scenarios(rng, quick):
         for d in ([0.05] if quick else [0.002, 0.05, 0.09]):
             t = round(te + d, 3)
             out.append((f"reset@ev{te}+{d}", [(t, "reset" if int(te * 1000) % 2 == 0 else "setinfo", None)], {}, t + 45))
+    # a reset that lands while the client's handler of an event of the connection attempt is suspended (the second
+    # LOCATING_FINISHED belongs to the connection's own discovery, the CONNECTION_ events to its handshake)
+    event_times()
+    seen_n = {}
+    for (nm, te) in _PILOT["named"]:
+        seen_n[nm] = seen_n.get(nm, 0) + 1
+        if (nm, seen_n[nm]) in (("LOCATING_FINISHED", 2), ("LOCATING_STARTED", 2), ("CONNECTION_STARTED", 1), ("GOT_CHANNEL", 1)):
+            full = {"LOCATING_FINISHED": "LOCATING_FINISHED", "LOCATING_STARTED": "LOCATING_STARTED",
+                    "CONNECTION_STARTED": "CONNECTION_STARTED", "GOT_CHANNEL": "CONNECTION_GOT_CHANNEL"}[nm]
+            t = round(te + 0.1, 3)
+            out.append((f"reset-in-handler:{nm}#{seen_n[nm]}", [(t, "reset", None)], {f"{full}#{seen_n[nm]}": 0.3}, t + 60))
     # blackouts of various lengths at various moments
     for (a, d) in [(0.5, 3.0), (0.5, 200.0), (4.5, 30.0), (4.5, 100.0), (12.0, 50.0), (12.0, 400.0), (30.0, 130.0)]:
         out.append((f"blackout@{a}+{d}", [(a, "net", "blackout"), (a + d, "net", "ok")], {}, a + d + 250))
     out.append(("lossy", [(10.0, "net", "lossy"), (200.0, "net", "ok")], {}, 450))
+    # the spa changes a live value and its report is lost: the facade mirrors the spa again after the periodic refresh
+    out.append(("unreported-change", [(20.0, "change", 7), (25.0, "change", 40)], {}, 320))
     # a connection that never had a ping answered (pings are lost from the start, everything else gets through),
     # then the spa becomes unreachable: it is reported all the same, and the manager heals afterwards
     out.append(("noping-then-blackout", [(0.0, "net", "noping"), (30.0, "net", "blackout"), (500.0, "net", "ok")], {}, 800))
